@@ -785,4 +785,9 @@ var RaceBodies = map[string]func(){
 // SchedExpiry / SchedNewSurvey are also run under C16: a response that arrives exactly while its
 // survey expires or is superseded must not bring the socket down.
 func SchedExpiry()    { schedExpiry() }
+
+// SchedSharedMessage is also run under C17 (one message, cloned by the application, sent as a
+// survey on two contexts: each Send takes one reference and nothing of what the first one queued
+// changes when the second one stamps its id).
+func SchedSharedMessage() { schedSharedMessage() }
 func SchedNewSurvey() { schedNewSurvey() }
